@@ -1,3 +1,4 @@
 import Driver.Proto
+import Driver.Map
 open Lean
-def main : IO Unit := Driver.run (fun _ => Driver.jerr "not implemented")
+def main : IO Unit := Driver.run Driver.Map.handle
